@@ -16,7 +16,7 @@ theorem C07_disconnect_iff (e : Endpoint) (now : Nat) :
       (e.disconnectEventSent = false ∧ e.lastRecvTime + e.disconnectTimeout < now) := by
   unfold checkTimeouts
   simp only
-  by_cases h1 : (!e.disconnectNotifySent && decide (e.lastRecvTime + e.disconnectNotifyStart < now)) = true
+  by_cases h1 : (!e.disconnectNotifySent && !e.disconnectEventSent && decide (e.lastRecvTime + e.disconnectNotifyStart < now)) = true
   · simp only [h1, if_true]
     by_cases h2 : e.disconnectEventSent = false ∧ e.lastRecvTime + e.disconnectTimeout < now
     · obtain ⟨h2a, h2b⟩ := h2
